@@ -1,6 +1,6 @@
 (* Correspondence entry point: one op name + arguments -> canonical observation.
    Extracted to OCaml (Extract.v) and driven by ocaml/driver.ml. *)
-From Ufw Require Import Base.Val Base.Bits Base.Errno Model.Crc Model.ByteBuffer Model.Endpoints Model.Varint Model.Ring Model.Slip Model.Lenp Model.Persist Model.BinFmt Gen.BfGen_LB Model.RegTable.
+From Ufw Require Import Base.Val Base.Bits Base.Errno Model.Crc Model.ByteBuffer Model.Endpoints Model.Varint Model.Ring Model.Slip Model.Lenp Model.Persist Model.BinFmt Gen.BfGen_LB Model.RegTable Model.Regp.
 Local Open Scope string_scope.
 Local Open Scope N_scope.
 
@@ -475,6 +475,55 @@ Definition run_reg (op : string) (a : list val) : list val :=
     reg_ops (S (length (argLN 4 a))) t (argLN 4 a)
   else [VS "unknown-op"].
 
+(* ---------------- register protocol (C06-C09) ---------------- *)
+Definition rp_frame (r : recv_result) : list val :=
+  match rr_frame r, rr_errid r with
+  | Some f, (None | Some EPROTO | Some EFAULT) =>
+      [VS "F"; VN (f_type f); VN (f_opts f); VN (f_meta f); VN (f_seq f); VN (f_addr f); VN (f_bsize f); VH (f_payload f)]
+  | _, _ => [VS "-"]
+  end.
+Definition rp_call (c : backend_call) : list val :=
+  if bc_write c then [VS "W"; VN (bc_addr c); VN (bc_bsize c); VH (bc_payload c)]
+  else [VS "R"; VN (bc_addr c); VN (bc_bsize c)].
+Definition rp_round (r : round) : list val :=
+  let rr := rd_recv r in
+  (VS "#" ::
+   match rr_rc rr with
+   | RcChannel e => [VS (ename e); VS "-"; VS "-"; VS "|"; VS "|"; VN 0]
+   | RcOk => (VN 0 :: verrno (rr_errid rr) :: rp_frame rr) ++ [VS "|"] ++ flat_map rp_call (rd_calls r)
+             ++ [VS "|"; (if rd_prc_ok r then VN 0 else VS (ename EINVAL))]
+   end ++ [VH (rd_reply r); VN (rd_allocs r); VN (rd_frees r); VN 0])%list.
+Definition run_rp (op : string) (a : list val) : list val :=
+  if String.eqb op "rp.serve" then
+    let bs := argN 3 a in
+    if (bs <=? SIZEOF_RPFRAME) || (1048576 <? bs) then [VS "skip"] else
+    let p := {| g_mem16 := argB 1 a; g_serial := argB 0 a; g_seq := 0; g_blocksize := bs |} in
+    let st := {| ss_src := src_plain (argB 2 a) (argH 5 a); ss_alloc := map (fun z => negb (z =? 0)%Z) (argLZ 4 a);
+                 ss_verdicts := triples (argLN 6 a); ss_allocs := 0; ss_frees := 0 |} in
+    match serve 64 p st with
+    | None => [VS "out-of-fuel"]
+    | Some (rs, st') => (flat_map rp_round rs ++ [VS "#"; VN (ss_allocs st' - ss_frees st')])%list
+    end
+  else if String.eqb op "rp.emit" then
+    let kind := argN 3 a in let n := argN 7 a in let pl := argH 9 a in
+    let mem16 := argB 1 a in
+    let unit := if (kind =? 3) || ((kind =? 4) && mem16) then 2 else 1 in
+    if ((kind =? 2) || (kind =? 3) || (kind =? 4)) && negb (N.of_nat (List.length pl) =? n * unit) then [VS "skip"] else
+    if (4294967296 <=? n) || (30 <? kind) || ((4 <? kind) && (kind <? 11)) || ((21 <? kind) && (kind <? 30)) then [VS "skip"] else
+    let p := {| g_mem16 := mem16; g_serial := argB 0 a; g_seq := argN 2 a mod 65536; g_blocksize := 128 |} in
+    let '(wire, p') := emit p kind (argN 4 a) (argN 5 a mod 65536) (argN 6 a mod 4294967296) n (argN 8 a mod 4294967296) pl in
+    let q := {| g_mem16 := mem16; g_serial := argB 0 a; g_seq := 0; g_blocksize := SIZEOF_RPFRAME + N.of_nat (List.length wire) + 32 |} in
+    ([VN 0; VN (g_seq p'); VH wire] ++
+     match regp_recv q (src_plain false wire) true with
+     | None => [VS "out-of-fuel"]
+     | Some r =>
+         match rr_rc r with
+         | RcChannel e => [VS (ename e)]
+         | RcOk => VN 0 :: verrno (rr_errid r) :: rp_frame r
+         end ++ [VH (rr_reply r); VN (N.of_nat (List.length (s_stream (rr_rest r)))); VN 0]
+     end)%list
+  else [VS "unknown-op"].
+
 Definition prefix_of (p s : string) : bool := String.prefix p s.
 
 Definition dispatch (op : string) (a : list val) : list val :=
@@ -488,4 +537,5 @@ Definition dispatch (op : string) (a : list val) : list val :=
   else if prefix_of "ps." op then run_ps op a
   else if prefix_of "bf." op then run_bf op a
   else if prefix_of "reg." op then run_reg op a
+  else if prefix_of "rp." op then run_rp op a
   else [VS "unknown-op"].
